@@ -382,7 +382,9 @@ DEVICE_URLS = ["http://192.168.1.10:8080/desc/root.xml", "http://host/", "http:/
 CONTROL_URLS = ["/ctl/Svc", "ctl", "sub/ctl?x=1", "http://other:99/c", "//other/c", "", "/upnp/control/RenderingControl1",
                 "/c?a=1&b=2", "https://h2/ctl", "control.cgi", "/"]
 SERVICE_TYPES = ["urn:schemas-upnp-org:service:RenderingControl:1", "urn:schemas-upnp-org:service:AVTransport:2",
-                 "urn:acme-corp:service:X_y:12", "urn:schemas-upnp-org:service:ContentDirectory:1", "urn:a:service:é:1"]
+                 "urn:acme-corp:service:X_y:12", "urn:schemas-upnp-org:service:ContentDirectory:1", "urn:a:service:é:1",
+                 # device-controlled text: anything the description can carry (F06c)
+                 "urn:acme&co:service:X:1", "urn:a\"b:service:Q:1", "urn:x<y>:service:It's \"Z\":1", "urn:t\tab:service:n\nl:1"]
 
 STR_ALPHABETS = [
     "abcXYZ 019",
@@ -485,7 +487,7 @@ def rand_decl(rng) -> Dict[str, Any]:
         "strict": rng.random() < 0.8,
         "device_url": rng.choice(DEVICE_URLS),
         "control_url": rng.choice(CONTROL_URLS),
-        "service_type": rng.choice(SERVICE_TYPES),
+        "service_type": rng.choice(SERVICE_TYPES[:5] if rng.random() < 0.75 else SERVICE_TYPES[5:]),
         "action": rand_name(rng),
         "args": [rand_arg_decl(rng, nm, d) for nm, d in zip(names, dirs)],
     }
@@ -619,6 +621,8 @@ CORPUS = [
     {"decl": _decl1("ui2", range={"min": "0", "max": "100"}), "kwargs": [["X", ["i", "101"]]]},
     {"decl": _decl1("string", allowed=["Master", "LF"]), "kwargs": [["X", ["s", "master"]]]},
     {"decl": _decl1("i4"), "kwargs": []},
+    {"decl": dict(_decl1("string"), service_type="urn:acme&co:service:X:1"), "kwargs": [["X", ["s", "v"]]]},          # F06c
+    {"decl": dict(_decl1("string"), service_type="urn:a\"b<c>:service:It's:1"), "kwargs": [["X", ["s", "v"]]]},      # F06c
     {"decl": _decl1("r8"), "kwargs": [["X", ["f", "nan"]]]},
     {"decl": _decl1("boolean"), "kwargs": [["X", ["i", "1"]]]},
     {"decl": _decl1("date"), "kwargs": [["X", ["dt", "2020-01-02T03:04:05+01:00"]]]},
